@@ -25,6 +25,20 @@ class Enum:
         self.idx, self.name, self.payload = variant_index, variant_name, payload
 
 
+class Struct:
+    def __init__(self, name, names, fields):
+        self.name, self.names, self.fields = name, names, fields
+
+
+NAMED = {  # decimal literals of the Rust standard library (core::f64::consts)
+    'PI': '3.14159265358979323846264338327950288', 'TAU': '6.28318530717958647692528676655900577',
+    'FRAC_PI_2': '1.57079632679489661923132169163975144', 'FRAC_PI_3': '1.04719755119659774615421446109316763',
+    'FRAC_PI_4': '0.785398163397448309615660845819875721', 'FRAC_PI_6': '0.52359877559829887307710723054658381',
+    'FRAC_PI_8': '0.39269908169872415480783042290993786', 'SQRT_2': '1.41421356237309504880168872420969808',
+    'E': '2.71828182845904523536028747135266250', 'EPSILON': '2.2204460492503131E-16',
+}
+
+
 class Interp:
     def __init__(self, func, args, glue=None, fresh_prefix='c'):
         """args: {'_1': value, ...}; glue: callable(callee, argvalues, dest_type) -> value or None"""
@@ -35,6 +49,7 @@ class Interp:
         self.fresh = 0
         self.prefix = fresh_prefix
         self.steps = 0
+        self.enums = {}    # enum name -> [variant names in declaration order]
 
     def newvar(self, hint):
         self.fresh += 1
@@ -55,6 +70,7 @@ class Interp:
             base = self.place(m.group(1), env)
             k = int(m.group(2))
             if isinstance(base, Closure): return base.fields[k]
+            if isinstance(base, Struct): return base.fields[k]
             if isinstance(base, Enum): return base.payload[k]
             if isinstance(base, tuple) and base[0] == 'tuple': return base[1 + k]
             raise Unsupported('field %d of %r' % (k, base))
@@ -87,9 +103,10 @@ class Interp:
         if m: return ('bconst', m.group(1) == 'true')
         m = re.fullmatch(r'(?:copy|move|no_retag copy) (.*)', o)
         if m: return self.place(m.group(1), env)
-        m = re.fullmatch(r'const (std::f64::consts::\w+|f64::\w+)', o)
+        m = re.fullmatch(r'const (?:std|core)::f64::consts::(\w+)|const f64::(\w+)', o)
         if m:
-            import struct
+            n = m.group(1) or m.group(2)
+            if n in NAMED: return ('const', Fraction(float(NAMED[n])))
             raise Unsupported('named const ' + o)
         raise Unsupported('operand ' + o)
 
@@ -147,6 +164,16 @@ class Interp:
                 for part in self.split_args(m.group(2)):
                     fields.append(self.operand(part.split(':', 1)[1], env))
             return Closure(m.group(1), fields)
+        m = re.fullmatch(r'([\w:]+) \{ (.*) \}', rv)
+        if m:
+            names, fields = [], []
+            for part in self.split_args(m.group(2)):
+                n, v = part.split(':', 1)
+                names.append(n.strip()); fields.append(self.operand(v, env))
+            return Struct(m.group(1), names, fields)
+        m = re.fullmatch(r'(\w+)::(\w+)', rv)
+        if m and m.group(1) in self.enums:
+            return Enum(self.enums[m.group(1)].index(m.group(2)), m.group(2), [])
         m = re.fullmatch(r'\((.*),\)', rv)
         if m: return ('tuple', self.operand(m.group(1), env))
         m = re.fullmatch(r'\((.*)\)', rv)
